@@ -8,12 +8,17 @@
  *   q inside <depth> <set>                hwloc_get_next_obj_inside_cpuset_by_depth from NULL until NULL
  *   q nb_inside <depth> <set>             hwloc_get_nbobjs_inside_cpuset_by_depth + get_obj_inside(idx) for every idx + index_inside
  *   q covering_iter <depth> <set>         hwloc_get_next_obj_covering_cpuset_by_depth from NULL until NULL
- *   q ancestor <id> <id>                  hwloc_get_common_ancestor_obj   (in a child process when an object is not normal)
+ *   q ancestor <id> <id>                  hwloc_get_common_ancestor_obj
  *   q in_subtree <id> <id>                hwloc_obj_is_in_subtree
- *   q closest <id> <max>                  hwloc_get_closest_objs          (in a child process when src is not normal)
+ *   q closest <id> <max>                  hwloc_get_closest_objs
  *   q to_nodeset <set> / from_nodeset <set>
- *   q same_locality <id> <type>           hwloc_get_obj_with_same_locality(src, type, NULL, NULL, 0)
+ *   q same_locality <id> <type> [subtype|-] [nameprefix|-] [flags]   hwloc_get_obj_with_same_locality (strings %xx-encoded as in the dump)
  *   q type_depth <type> / depth_type <depth> / type_or_below <type> / type_or_above <type>
+ *   q type_depth_attr <type> <group depth> <0|1|2>   hwloc_get_type_depth_with_attr (1: attrsize too small, 2: attrp NULL)
+ *   q sscanf_depth <string>               hwloc_type_sscanf_as_depth, beside hwloc_type_sscanf of the same string
+ *   q next_child <id>                     hwloc_get_next_child from NULL until NULL
+ *   q type_kind <type>                    hwloc_obj_type_is_{normal,io,memory,cache,dcache,icache}
+ *   q memory_parents_depth                hwloc_get_memory_parents_depth
  *   q distrib <id,id,...> <n> <until> <flags>
  *   q singlify_per_core <set> <which>
  * Every query prints "Q <text>" then "R <result>": objects as dump-local ids,
@@ -26,6 +31,17 @@
 
 static struct hwv_map M; static int have_map;
 static hwloc_topology_t T;
+
+/* %xx decoding (the dump's hwv_pstr encoding, without the quotes) */
+static void unescape(char *s)
+{
+  char *w = s;
+  for (; *s; s++) {
+    if (*s == '%' && s[1] && s[2]) { char h[3] = { s[1], s[2], 0 }; *w++ = (char)strtol(h, NULL, 16); s += 2; }
+    else *w++ = *s;
+  }
+  *w = 0;
+}
 
 static hwloc_obj_t obj_of(const char *s)
 {
@@ -132,8 +148,7 @@ static void query(char *q)
   } else if (!strcmp(kind, "ancestor")) {
     char a[32], b[32]; struct anc_arg x;
     if (sscanf(q, "%31s %31s", a, b) != 2 || !(x.a = obj_of(a)) || !(x.b = obj_of(b))) { printf("R bad\n"); return; }
-    if (x.a->depth >= 0 && x.b->depth >= 0) do_ancestor(&x);
-    else if (in_child(do_ancestor, &x) < 0) printf("R crash\n");
+    do_ancestor(&x);
   } else if (!strcmp(kind, "in_subtree")) {
     char a[32], b[32]; hwloc_obj_t oa, ob;
     if (sscanf(q, "%31s %31s", a, b) != 2 || !(oa = obj_of(a)) || !(ob = obj_of(b))) { printf("R bad\n"); return; }
@@ -141,8 +156,7 @@ static void query(char *q)
   } else if (!strcmp(kind, "closest")) {
     char a[32]; struct closest_arg x;
     if (sscanf(q, "%31s %u", a, &x.max) != 2 || !(x.src = obj_of(a)) || x.max > 10000000u) { printf("R bad\n"); return; }
-    if (x.src->depth >= 0 || !x.src->cpuset) do_closest(&x);
-    else if (in_child(do_closest, &x) < 0) printf("R crash\n");
+    do_closest(&x);
   } else if (!strcmp(kind, "to_nodeset") || !strcmp(kind, "from_nodeset")) {
     hwloc_bitmap_t s = hwv_parse_set(q), r; int rc;
     if (!s) { printf("R bad\n"); return; }
@@ -152,11 +166,44 @@ static void query(char *q)
     printf("R %d ", rc); hwv_pset(stdout, r); putchar('\n');
     hwloc_bitmap_free(r); hwloc_bitmap_free(s);
   } else if (!strcmp(kind, "same_locality")) {
-    char a[32]; int ty; hwloc_obj_t o, r;
-    if (sscanf(q, "%31s %d", a, &ty) != 2 || !(o = obj_of(a))) { printf("R bad\n"); return; }
+    char a[32], st[512] = "-", np[512] = "-"; int ty; unsigned long fl = 0; hwloc_obj_t o, r;
+    if (sscanf(q, "%31s %d %511s %511s %lu", a, &ty, st, np, &fl) < 2 || !(o = obj_of(a))) { printf("R bad\n"); return; }
+    unescape(st); unescape(np);
     errno = 0;
-    r = hwloc_get_obj_with_same_locality(T, o, (hwloc_obj_type_t)ty, NULL, NULL, 0);
+    r = hwloc_get_obj_with_same_locality(T, o, (hwloc_obj_type_t)ty, strcmp(st, "-") ? st : NULL, strcmp(np, "-") ? np : NULL, fl);
     printf("R "); pid_(r); printf(" %s\n", r ? "0" : hwv_errno_class(errno));
+  } else if (!strcmp(kind, "type_depth_attr")) {
+    int ty, mode; unsigned gd; union hwloc_obj_attr_u attr;
+    if (sscanf(q, "%d %u %d", &ty, &gd, &mode) != 3) { printf("R bad\n"); return; }
+    memset(&attr, 0, sizeof(attr)); attr.group.depth = gd;
+    printf("R %d\n", hwloc_get_type_depth_with_attr(T, (hwloc_obj_type_t)ty, mode == 2 ? NULL : &attr, mode == 1 ? sizeof(attr) - 1 : sizeof(attr)));
+  } else if (!strcmp(kind, "sscanf_depth")) {
+    char str[512]; hwloc_obj_type_t ty = (hwloc_obj_type_t)-1, ty2 = (hwloc_obj_type_t)-1; int depth = -99, err, err2; union hwloc_obj_attr_u attr;
+    if (sscanf(q, "%511s", str) != 1) { printf("R bad\n"); return; }
+    unescape(str);
+    err = hwloc_type_sscanf_as_depth(str, &ty, T, &depth);
+    memset(&attr, 0, sizeof(attr));
+    err2 = hwloc_type_sscanf(str, &ty2, &attr, sizeof(attr));
+    /* answer of the call, then what hwloc_type_sscanf alone says (type, group depth) for the model to compose */
+    printf("R %d %d %d | %d %d %u\n", err, err < 0 ? -1 : (int)ty, err < 0 ? -99 : depth, err2, err2 < 0 ? -1 : (int)ty2,
+           (err2 >= 0 && ty2 == HWLOC_OBJ_GROUP) ? attr.group.depth : (unsigned)-1);
+  } else if (!strcmp(kind, "next_child")) {
+    hwloc_obj_t o = obj_of(q), c = NULL; unsigned k = 0;
+    if (!o) { printf("R bad\n"); return; }
+    printf("R ");
+    while ((c = hwloc_get_next_child(T, o, c)) != NULL) {
+      if (k) putchar(',');
+      pid_(c);
+      if (++k > nobj) { printf(",!loop"); break; }
+    }
+    if (!k) putchar('-');
+    putchar('\n');
+  } else if (!strcmp(kind, "type_kind")) {
+    hwloc_obj_type_t ty = (hwloc_obj_type_t)atoi(q);
+    printf("R %d %d %d %d %d %d\n", hwloc_obj_type_is_normal(ty), hwloc_obj_type_is_io(ty), hwloc_obj_type_is_memory(ty),
+           hwloc_obj_type_is_cache(ty), hwloc_obj_type_is_dcache(ty), hwloc_obj_type_is_icache(ty));
+  } else if (!strcmp(kind, "memory_parents_depth")) {
+    printf("R %d\n", hwloc_get_memory_parents_depth(T));
   } else if (!strcmp(kind, "type_depth")) {
     printf("R %d\n", hwloc_get_type_depth(T, (hwloc_obj_type_t)atoi(q)));
   } else if (!strcmp(kind, "depth_type")) {
